@@ -88,10 +88,8 @@ Proof.
   { intros j L. unfold rn_at, get. cbn. rewrite nth_repeat_lt'; auto. }
   constructor; cbn; auto; try discriminate.
   - apply repeat_length.
-  - intros i _ j _ L. now apply nth_repeat_lt'.
   - intros i [H|H]; discriminate H.
   - intros j L H. now rewrite nth_repeat_lt' in H.
-  - intros i H. injection H as <-. right. intros k Hk. lia.
   - intros i [H|H]; discriminate H.
 Qed.
 
@@ -112,23 +110,42 @@ Proof. intros [->|[x [-> _]]] H; [exact H|now apply gate_ok_cons]. Qed.
 Lemma launched_rn s s' : rn s' = rn s -> launched s' = launched s.
 Proof. unfold launched. now intros ->. Qed.
 
+(* when Shutdown stops nothing, nothing was started *)
+Lemma stop_count_zero c s : length (rn s) = nrun c -> stop_count c s = 0 -> launched s = 0.
+Proof.
+  unfold stop_count. intros L H. destruct (run_entered (aux s)); [exact H|].
+  unfold launched. rewrite H in L. destruct (rn s); [reflexivity|discriminate L].
+Qed.
+
+Lemma ig_sd_start c s :
+  length (rn s) = nrun c ->
+  match sd_next (stop_count c s) with
+  | SdCancel | SdWait | SdDone => mem_ev (EStopRet 0) (hist s) = true \/ launched s = 0
+  | _ => True end.
+Proof.
+  intros L. destruct (stop_count c s) eqn:E; cbn [sd_next]; [|exact Logic.I].
+  right. now apply (stop_count_zero c).
+Qed.
+
 (* shutdown progress that the gate invariant tolerates: unchanged, or started now *)
-Definition sd_ok (s s' : state) : Prop :=
-  sd s' = sd s \/ (sd s = SdNot /\ sd s' = sd_next (launched s)).
+Definition sd_ok (c : config) (s s' : state) : Prop :=
+  sd s' = sd s \/ (sd s = SdNot /\ sd s' = sd_next (stop_count c s)).
 
 Lemma sd_field c s s' :
-  InvGate c s -> rn s' = rn s -> sd_ok s s' -> hist_ext s s' ->
+  InvGate c s -> rn s' = rn s -> sd_ok c s s' -> hist_ext s s' ->
   match sd s' with SdCancel | SdWait | SdDone => mem_ev (EStopRet 0) (hist s') = true \/ launched s' = 0
   | _ => True end.
 Proof.
   intros I Hr [E|[E0 E]] Hh; rewrite E, (launched_rn _ _ Hr).
   - pose proof (ig_sd _ _ I) as H. destruct (sd s); auto;
       (destruct H as [H|H]; [left; eapply hist_ext_mem; eassumption|now right]).
-  - destruct (launched s) eqn:L; cbn [sd_next]; auto.
+  - pose proof (ig_sd_start c s (ig_len _ _ I)) as X.
+    destruct (sd_next (stop_count c s)); auto;
+      (destruct X as [X|X]; [left; eapply hist_ext_mem; eassumption|now right]).
 Qed.
 
 Lemma own_field c s s' :
-  InvGate c s -> own_cancel s' = own_cancel s -> sd_ok s s' ->
+  InvGate c s -> own_cancel s' = own_cancel s -> sd_ok c s s' ->
   own_cancel s' = true -> match sd s' with SdWait | SdDone => True | _ => False end.
 Proof.
   intros I Ho [E|[E0 E]] H; rewrite Ho in H; pose proof (ig_own _ _ I H) as X.
@@ -138,7 +155,7 @@ Qed.
 
 (* frame: neither the start-up loop, nor the runnable goroutines, nor cancellation moved *)
 Lemma InvGate_frame c s s' :
-  InvGate c s -> main s' = main s -> rn s' = rn s -> sd_ok s s' ->
+  InvGate c s -> main s' = main s -> rn s' = rn s -> sd_ok c s s' ->
   own_cancel s' = own_cancel s -> parent_cancel s' = parent_cancel s -> hist_ext s s' ->
   InvGate c s'.
 Proof.
@@ -284,6 +301,150 @@ Proof.
     (destruct Eh as [->|[x ->]]; [exact H|now apply mem_ev_cons]).
 Qed.
 
+(* ---- before Run() has set p.runEntered nothing is started ---- *)
+Definition pre_run (s : state) : Prop := main s = MNew \/ main s = MEntering.
+
+Lemma get_in_range {A} (d : A) l i : get d l i <> d -> i < length l.
+Proof.
+  unfold get. intros H. destruct (Nat.lt_ge_cases i (length l)) as [L|L]; [exact L|].
+  rewrite nth_overflow in H by exact L. congruence.
+Qed.
+
+Definition InvNew (c : config) (s : state) : Prop :=
+  (pre_run s -> forall j, j < length (rn s) -> rn_at s j = RnNot) /\
+  (pre_run s -> run_entered (aux s) = false) /\
+  (run_entered (aux s) = false -> pre_run s).
+
+Lemma InvNew_init c : InvNew c (init c).
+Proof.
+  split; [|split; [reflexivity|intros _; now left]].
+  intros _ j L. unfold rn_at, get. cbn in *. rewrite repeat_length in L. now apply nth_repeat_lt'.
+Qed.
+
+Lemma InvNew_step c s l s' : InvNew c s -> step c s l = Some s' -> InvNew c s'.
+Proof.
+  intros (I1 & I2 & I3) H. unfold step in H. unfold pre_run in *.
+  destruct l; cbn [step0] in H; unfold start_shutdown, store_state in H;
+    step_cases H; inversion H; subst; clear H; (split; [|split]); unfold pre_run, rn_at in *; simp_st.
+  all: try match goal with E : main _ = _ |- _ => rewrite E in * end.
+  all: try exact I1.
+  all: try exact I2.
+  all: try exact I3.
+  all: try (intros [X|X]; discriminate X).
+  all: try (intros X; discriminate X).
+  all: try (intros _; now right).
+  all: try (intros _; reflexivity).
+  all: try (intros _; apply I2; auto; fail).
+  all: try (intros _; apply I1; auto; fail).
+  all: try (intros X; exfalso; destruct (I3 X) as [Y|Y]; congruence).
+  all: try (intros X; exfalso; congruence).
+  all: try (intros _; exfalso; destruct (I3 eq_refl) as [Y|Y]; discriminate Y).
+  all: try (intros X; exfalso; specialize (I2 X); discriminate I2).
+  all: try (intros [X|X]; apply after_launch_cases in X as [[X _]|X]; discriminate X).
+  all: try (intros X; exfalso; apply after_launch_cases in X as [[X _]|X]; discriminate X).
+  all: try (intros [X|X]; exfalso; congruence).
+  (* a runnable goroutine moved: impossible before anything was started *)
+  all: try (intros X j Lj; exfalso;
+            match goal with E : get RnDone (rn ?s0) ?i = _ |- _ =>
+              assert (Li : i < length (rn s0)) by (apply (get_in_range RnDone); rewrite E; discriminate);
+              rewrite (I1 X i Li) in E; discriminate E end).
+Qed.
+
+Lemma InvNew_reachable c s : reachable_sup c s -> InvNew c s.
+Proof. apply sup_inv; [apply InvNew_init|apply InvNew_step]. Qed.
+
+(* ... and no runnable has reported an error *)
+Definition InvNewQ (s : state) : Prop := pre_run s -> errq s = [].
+
+Lemma InvNewQ_step c s l s' : InvNew c s -> InvNewQ s -> step c s l = Some s' -> InvNewQ s'.
+Proof.
+  intros (I1 & _) IQ H. unfold step in H. unfold InvNewQ, pre_run in *.
+  destruct l; cbn [step0] in H; unfold start_shutdown, store_state in H;
+    step_cases H; inversion H; subst; clear H; simp_st.
+  all: try match goal with E : main _ = _ |- _ => rewrite E in * end.
+  all: try exact IQ.
+  all: try (intros [X|X]; discriminate X).
+  all: try (intros [X|X]; apply after_launch_cases in X as [[X _]|X]; discriminate X).
+  all: try (intros _; apply IQ; auto; fail).
+  all: try (intros X; exfalso;
+            match goal with E : rn_at ?s0 ?i = _ |- _ =>
+              assert (Li : i < length (rn s0)) by (apply (get_in_range RnDone); unfold rn_at in E; rewrite E; discriminate);
+              rewrite (I1 X i Li) in E; discriminate E end).
+Qed.
+
+Lemma InvNewQ_reachable c s : reachable_sup c s -> InvNewQ s.
+Proof.
+  intros Hr.
+  assert (G : InvNew c s /\ InvNewQ s).
+  { revert s Hr. apply sup_inv.
+    - split; [apply InvNew_init|intros _; reflexivity].
+    - intros s0 l s1 [A B] Hs. split; [eapply InvNew_step; eassumption|eapply InvNewQ_step; eassumption]. }
+  apply G.
+Qed.
+
+(* ---- before Run() has been entered there is no manager, listener or monitor ---- *)
+Definition mgrs_absent (s : state) : Prop :=
+  rm s = RmAbsent /\ sdm_done s = true /\ stm_done s = true /\
+  (forall i, get LsAbsent (rls s) i = LsAbsent) /\ (forall i, get LsAbsent (sls s) i = LsAbsent) /\
+  (forall i, mon_at s i = MoAbsent).
+
+Definition InvAbs (s : state) : Prop := pre_run s -> mgrs_absent s.
+
+Lemma get_map_const {A B} (d y : B) (l : list A) i : y = d -> get d (map (fun _ => y) l) i = d.
+Proof. intros ->. unfold get. revert i. induction l as [|x l IH]; intros [|i]; cbn; auto. Qed.
+
+Lemma InvAbs_init c : InvAbs (init c).
+Proof.
+  intros _. unfold mgrs_absent, mon_at. cbn. repeat split; intros i; now apply get_map_const.
+Qed.
+
+Lemma InvAbs_step c s l s' : InvAbs s -> step c s l = Some s' -> InvAbs s'.
+Proof.
+  intros IA H. unfold step in H. unfold InvAbs, pre_run, mgrs_absent, mon_at in *.
+  destruct l; cbn [step0] in H; unfold start_shutdown, store_state in H;
+    step_cases H; inversion H; subst; clear H; simp_st.
+  all: try match goal with E : main _ = _ |- _ => rewrite E in * end.
+  all: try exact IA.
+  all: try (intros [X|X]; discriminate X).
+  all: try (intros [X|X]; apply after_launch_cases in X as [[X _]|X]; discriminate X).
+  all: try (intros _; apply IA; auto; fail).
+  (* a manager, listener or monitor moved: there is none *)
+  all: try (intros X; exfalso; destruct (IA X) as (A1 & A2 & A3 & A4 & A5 & A6);
+            first [ congruence
+                  | match goal with E : get LsAbsent (rls _) ?i = _ |- _ => rewrite A4 in E; discriminate E end
+                  | match goal with E : get LsAbsent (sls _) ?i = _ |- _ => rewrite A5 in E; discriminate E end
+                  | match goal with E : get MoAbsent (mon _) ?i = _ |- _ => rewrite A6 in E; discriminate E end
+                  | match goal with E : mon_at _ ?i = _ |- _ => unfold mon_at in E; rewrite A6 in E; discriminate E end
+                  | match goal with E : negb (sdm_done _) && _ = true |- _ => rewrite A2 in E; discriminate E end
+                  | match goal with E : negb (stm_done _) && _ = true |- _ => rewrite A3 in E; discriminate E end ]).
+Qed.
+
+Lemma InvAbs_reachable c s : reachable_sup c s -> InvAbs s.
+Proof. apply sup_inv; [apply InvAbs_init|apply InvAbs_step]. Qed.
+
+(* ---- a Shutdown that closed the launch gate before Run() was entered is marked sd_all ---- *)
+Definition InvSdAll (s : state) : Prop :=
+  sd s <> SdNot -> run_entered (aux s) = false -> sd_all (aux s) = true.
+
+Lemma InvSdAll_step c s l s' : InvSdAll s -> step c s l = Some s' -> InvSdAll s'.
+Proof.
+  intros IA H. unfold step in H. unfold InvSdAll in *.
+  destruct l; cbn [step0] in H; unfold start_shutdown, store_state in H;
+    step_cases H; inversion H; subst; clear H; simp_st.
+  all: try exact IA.
+  all: try (intros _ X; discriminate X).
+  all: try (intros _ _; reflexivity).
+  all: try (intros _ X; congruence).
+  all: try (intros X; contradiction).
+  all: try (intros _; apply IA; congruence).
+Qed.
+
+Lemma InvSdAll_reachable c s : reachable_sup c s -> InvSdAll s.
+Proof. apply sup_inv; [intros X; contradiction|apply InvSdAll_step]. Qed.
+
+(* the managers exist iff Run() was entered while the launch gate was open *)
+Definition mgrs_on (s : state) : Prop := run_entered (aux s) = true /\ sd_all (aux s) = false.
+
 (* ---- the labels that move the start-up loop ---- *)
 
 Lemma rn_same_obl (s : state) (P : nat -> Prop) :
@@ -370,9 +531,9 @@ Qed.
 Ltac hist2_tac := first [left; reflexivity | right; eexists; split; [reflexivity|intros ? Hx; discriminate Hx]].
 Ltac hist_tac := first [left; reflexivity | right; eexists; split; [reflexivity|intros; discriminate]].
 
-Lemma InvGate_step c s l s' : InvGate c s -> step c s l = Some s' -> InvGate c s'.
+Lemma InvGate_step c s l s' : InvNew c s -> InvGate c s -> step c s l = Some s' -> InvGate c s'.
 Proof.
-  intros I H. unfold step in H.
+  intros IN I H. unfold step in H.
   destruct l; cbn [step0] in H; unfold start_shutdown, store_state in H;
     step_cases H; inversion H; subst; clear H.
   all: repeat match goal with E : _ && _ = true |- _ => apply andb_true_iff in E as [? ?] end.
@@ -441,10 +602,23 @@ Proof.
   all: try (intros j Hj; destruct (Nat.eq_dec i j) as [->|N];
             [match goal with E : get RnDone (rn _) _ = RnLaunched |- _ => rewrite E in Hj; contradiction end
             |now rewrite get_upd_other]).
+  (* Run() has just been entered: nothing is started yet *)
+  all: try (intros ii Hmm; injection Hmm as <-; split;
+            [intros j _ Lj; apply (proj1 IN); [right; assumption|rewrite (ig_len _ _ I); exact Lj]
+            |right; intros ? Hk0; lia]).
+  (* shutdown starts now *)
+  all: try exact (ig_sd_start c s (ig_len _ _ I)).
 Qed.
 
 Lemma InvGate_reachable c s : reachable_sup c s -> InvGate c s.
-Proof. apply sup_inv; [apply InvGate_init|apply InvGate_step]. Qed.
+Proof.
+  intros Hr.
+  assert (G : InvNew c s /\ InvGate c s).
+  { revert s Hr. apply sup_inv.
+    - split; [apply InvNew_init|apply InvGate_init].
+    - intros s0 l s1 [IN I] Hs. split; [eapply InvNew_step; eassumption|eapply InvGate_step; eassumption]. }
+  apply G.
+Qed.
 
 Lemma mem_ev_rev e h : mem_ev e (rev h) = mem_ev e h.
 Proof.
@@ -500,7 +674,7 @@ Qed.
 (* C03 (abort): once Run() has left its start-up loop - after a start-up failure, a closed launch
    gate or normally - no further runnable is ever started *)
 Definition past_startup (s : state) : Prop :=
-  match main s with MLaunch _ | MGate _ | MGateCheck _ => False | _ => True end.
+  match main s with MNew | MEntering | MLaunch _ | MGate _ | MGateCheck _ => False | _ => True end.
 
 Lemma past_startup_step c s l s' :
   past_startup s -> step c s l = Some s' -> past_startup s' /\ launched s' = launched s.
